@@ -149,6 +149,10 @@ class Ctx:
         cmd = ["java", "-Xss16m"] + (["-XX:+UseSerialGC", "-Xmx1500m"] if nw == 1 else ["-XX:+UseParallelGC", "-Xmx8g"])
         if dfs:
             cmd.append("-Dtlc2.tool.queue.IStateQueue=StateDeque")
+        # the JVM's own scratch (SANY*, tlc-* directories) goes to the work directory, which is removed, not to /tmp
+        jtmp = os.path.join(self.work, "jtmp")
+        os.makedirs(jtmp, exist_ok=True)
+        cmd.append("-Djava.io.tmpdir=" + jtmp)
         cmd += ["-cp", JAR, "tlc2.TLC", "-metadir", meta, "-noGenerateSpecTE",
                 "-config", cfgname, "-workers", str(workers or NCPU)]
         if not deadlock:
